@@ -7,9 +7,18 @@
 //!       external event the runtime runs to quiescence and the observation (caller results,
 //!       worker states, map) is compared with the spec's; the P-monitors are evaluated on
 //!       the real outputs.  The recorded hook events of every run are written as a trace.
+//!   pathsync fine <schedules.ndjson> <out.ndjson>
+//!       fine-grained schedules (GenFine_PathSync): a multi-thread runtime on which every task is
+//!       parked at the hook's yield points (the step boundaries of the I-spec) and released one step
+//!       at a time in the order TLC chose; same observations, P-monitors and trace output.
 //!   pathsync record <events.ndjson> <results.json>
 //!       randomised scenarios (VERIF_SEED) on a multi-thread runtime (4 workers) with
 //!       randomised yield/delay points; events for Trace_PathSync + direct liveness monitor.
+//!
+//!   pathsync storm <events.ndjson> <results.json>
+//!       high-rate driver: for thousands of fresh pairs several threads keep issuing path() callers
+//!       while the pair's lookup completes at a random moment; direct liveness monitor (10 s of
+//!       process progress after the completion); a sample of the pairs is traced and validated.
 //!
 //! A panic in the code under test is data (reported as a P-violation), never a tool error.
 use std::{
@@ -55,6 +64,15 @@ static LOG: Mutex<Vec<Ev>> = Mutex::new(Vec::new());
 
 fn log_snapshot() -> Vec<Ev> {
     let mut v = LOG.lock().unwrap().clone();
+    // events of workers created while no sink was installed (id 0: leftovers of an earlier,
+    // untraced manager that is still shutting down) do not belong to the observed run
+    v.retain(|e| {
+        e.w != 0
+            || !matches!(
+                e.kind.as_str(),
+                "fetch_start" | "fetch_done" | "exiting" | "exit_notify" | "worker_exit" | "caller_check" | "caller_woken" | "map_load"
+            )
+    });
     v.sort_by_key(|e| e.seq);
     v
 }
@@ -770,6 +788,689 @@ fn replay_one(sched: &Value, idle_ms: u64) -> ReplayOut {
     out
 }
 
+
+// ---------------------------------------------------------------------------------------- fine
+// Binding 1b: fine-grained schedules (GenFine_PathSync): every task is parked at the yield points of
+// the hook and released one step at a time, on a multi-thread runtime.
+
+const GATE_NAMES: [&str; 9] = [
+    "path.after_peek",
+    "path.after_ensure",
+    "handle.after_load",
+    "lock.await",
+    "await.registered",
+    "worker.start",
+    "fetch.before_finish",
+    "exit.before_remove",
+    "exit.before_notify",
+];
+
+#[derive(Default)]
+struct GateTable {
+    /// task -> gate it is parked at
+    at: HashMap<tokio::task::Id, &'static str>,
+    /// task -> last gate it left
+    left: HashMap<tokio::task::Id, &'static str>,
+    permits: HashMap<tokio::task::Id, u64>,
+    free_run: bool,
+}
+
+static GATES: std::sync::LazyLock<(Mutex<GateTable>, std::sync::Condvar)> =
+    std::sync::LazyLock::new(|| (Mutex::new(GateTable::default()), std::sync::Condvar::new()));
+
+fn gate_callback(name: &'static str) {
+    if !GATE_NAMES.contains(&name) {
+        return;
+    }
+    let Some(id) = tokio::task::try_id() else {
+        return;
+    };
+    // block_in_place: the worker thread hands its run queue (including a task spawned by this
+    // one, which sits in the non-stealable LIFO slot) to another thread while this task is parked
+    tokio::task::block_in_place(|| {
+        let (m, cv) = &*GATES;
+        let mut g = m.lock().unwrap();
+        if g.free_run {
+            return;
+        }
+        g.at.insert(id, name);
+        cv.notify_all();
+        let t0 = Instant::now();
+        loop {
+            if g.free_run {
+                break;
+            }
+            if let Some(p) = g.permits.get_mut(&id) {
+                if *p > 0 {
+                    *p -= 1;
+                    break;
+                }
+            }
+            if t0.elapsed() > Duration::from_secs(30) {
+                break; // never block the code under test forever
+            }
+            g = cv.wait_timeout(g, Duration::from_millis(20)).unwrap().0;
+        }
+        g.at.remove(&id);
+        g.left.insert(id, name);
+    });
+}
+
+fn gate_permit(id: tokio::task::Id) {
+    let (m, cv) = &*GATES;
+    let mut g = m.lock().unwrap();
+    *g.permits.entry(id).or_default() += 1;
+    cv.notify_all();
+}
+
+fn gate_free_run() {
+    let (m, cv) = &*GATES;
+    m.lock().unwrap().free_run = true;
+    cv.notify_all();
+}
+
+fn fine_one(sched: &Value, alts: &[Value]) -> ReplayOut {
+    const GATE_FIRST: bool = false;
+    reset_all();
+    {
+        let (m, _) = &*GATES;
+        *m.lock().unwrap() = GateTable::default();
+    }
+    verif_sync::set_yield(Some(Arc::new(gate_callback)));
+    let h = sched["h"].as_array().expect("h").clone();
+    let fin = sched["final"].clone();
+    let callers_meta = sched["callers"].as_object().expect("callers meta").clone();
+    let nw = fin["w"].as_array().map(|a| a.len()).unwrap_or(2);
+    let nk = fin["m"].as_array().map(|a| a.len()).unwrap_or(1);
+    let threshold = 10u64;
+    let cfg = verif_sync::config(
+        Duration::from_secs(3600),
+        Duration::from_millis(100),
+        Duration::from_secs(threshold),
+        Duration::from_secs(3600),
+        3600.0,
+        3600.0,
+        1.0,
+    );
+    // expected observations per step: any of the alternatives (same director steps, different
+    // order of the urgent steps in between)
+    let expected = |i: usize| -> Vec<Value> {
+        let mut v = vec![];
+        for a in std::iter::once(sched).chain(alts.iter()) {
+            let ah = a["h"].as_array().unwrap();
+            let o = if i < ah.len() { ah[i]["pre"].clone() } else { a["final"].clone() };
+            if !v.contains(&o) {
+                v.push(o);
+            }
+        }
+        v
+    };
+    let rt = tokio::runtime::Builder::new_multi_thread().worker_threads(8).enable_all().build().expect("runtime");
+    let out = rt.block_on(async move {
+        let fst = Arc::new(FetchState {
+            mode: FetchMode::Gated,
+            pending: Mutex::new(HashMap::new()),
+            calls: AtomicU64::new(0),
+            threshold_secs: threshold,
+            fast: AtomicBool::new(false),
+            gate_first: AtomicBool::new(GATE_FIRST),
+        });
+        let mut mgr: Option<Mgr> = Some(MultiPathManager::new(cfg, Fetcher(fst.clone()), PathStrategy::default()).expect("config"));
+        let mut callers: BTreeMap<String, Caller> = BTreeMap::new();
+        let mut ctask: HashMap<String, tokio::task::Id> = HashMap::new();
+        for (name, _) in callers_meta.iter() {
+            callers.insert(name.clone(), Caller { name: name.clone(), join: None, res: None, started: None });
+        }
+        let mut names: HashMap<tokio::task::Id, String> = HashMap::new();
+        let mut wtask: HashMap<u64, tokio::task::Id> = HashMap::new();
+        let mut conf = true;
+        let mut mis = Value::Null;
+        let mut pv: Vec<Value> = vec![];
+        let mut obs: Vec<Value> = vec![];
+
+        macro_rules! observe {
+            () => {{
+                for c in callers.values_mut() {
+                    reap(c).await;
+                }
+                let log = log_snapshot();
+                // worker tasks: by events, else the unknown task parked at worker.start
+                for (t, w) in worker_tasks(&log) {
+                    wtask.insert(w, t);
+                }
+                let (at, left) = {
+                    let g = GATES.0.lock().unwrap();
+                    (g.at.clone(), g.left.clone())
+                };
+                let mut inserted: Vec<u64> = log.iter().filter(|e| e.kind == "map_insert").map(|e| e.w).collect();
+                inserted.sort();
+                for (t, name) in at.iter() {
+                    if *name == "worker.start" && !names.contains_key(t) && !wtask.values().any(|x| x == t) {
+                        if let Some(w) = inserted.iter().find(|w| !wtask.contains_key(w)) {
+                            wtask.insert(*w, *t);
+                        }
+                    }
+                }
+                let mut oc = serde_json::Map::new();
+                for (n, c) in callers.iter() {
+                    let s = match (&c.res, c.started) {
+                        (Some(r), _) => r.name(),
+                        (None, None) => "idle".to_string(),
+                        (None, Some(_)) => {
+                            let t = ctask.get(n);
+                            match t.and_then(|t| at.get(t)) {
+                                Some(g) => format!("g:{g}"),
+                                None => {
+                                    if t.and_then(|t| left.get(t)).copied() == Some("await.registered") { "await".to_string() } else { "running".to_string() }
+                                }
+                            }
+                        }
+                    };
+                    oc.insert(n.clone(), Value::String(s));
+                }
+                let mut ow: Vec<String> = vec![];
+                let pending: Vec<u64> = fst.pending.lock().unwrap().keys().copied().collect();
+                for w in 1..=nw as u64 {
+                    let has = |k: &str| log.iter().any(|e| e.kind == k && e.w == w);
+                    let s = if !has("map_insert") {
+                        "unborn".to_string()
+                    } else if has("worker_exit") {
+                        "dead".to_string()
+                    } else if let Some(g) = wtask.get(&w).and_then(|t| at.get(t)) {
+                        format!("g:{g}")
+                    } else if pending.contains(&w) {
+                        "fetching".to_string()
+                    } else if has("fetch_done") && !has("exiting") {
+                        "sleeping".to_string()
+                    } else {
+                        "running".to_string()
+                    };
+                    ow.push(s);
+                }
+                json!({"c": oc, "w": ow, "m": obs_map(&log, nk)})
+            }};
+        }
+        macro_rules! await_obs {
+            ($exp:expr) => {{
+                let exp: Vec<Value> = $exp;
+                let t0 = Instant::now();
+                let mut last;
+                loop {
+                    last = observe!();
+                    if exp.contains(&last) || t0.elapsed() > Duration::from_secs(5) {
+                        break;
+                    }
+                    tokio::time::sleep(Duration::from_micros(300)).await;
+                }
+                last
+            }};
+        }
+
+        for (i, step) in h.iter().enumerate() {
+            let exp = expected(i);
+            let real = await_obs!(exp.clone());
+            obs.push(real.clone());
+            if !exp.contains(&real) {
+                conf = false;
+                mis = json!({"step": i, "spec": step["pre"], "real": real});
+                break;
+            }
+            let ev = &step["ev"];
+            let a = ev["a"].as_str().unwrap_or("");
+            let cn = ev["c"].as_str().unwrap_or("").to_string();
+            let w = ev["w"].as_u64().unwrap_or(0);
+            match a {
+                "start" => {
+                    let meta = &callers_meta[&cn];
+                    let kind = meta["kind"].as_str().unwrap();
+                    let k = meta["k"].as_u64().unwrap();
+                    if let Some(m) = &mgr {
+                        hev("caller_start", &cn, 0, k, kind);
+                        let j = spawn_api_caller(m, &cn, kind, k);
+                        names.insert(j.id(), cn.clone());
+                        ctask.insert(cn.clone(), j.id());
+                        let c = callers.get_mut(&cn).unwrap();
+                        c.join = Some(j);
+                        c.started = Some(Instant::now());
+                    }
+                }
+                "handle" => {
+                    if let Some(hd) = verif_sync::handles().into_iter().find(|x| x.id() == w) {
+                        hev("handle_get", &cn, w, 0, "");
+                        let j = spawn_handle_caller(hd, &cn);
+                        names.insert(j.id(), cn.clone());
+                        ctask.insert(cn.clone(), j.id());
+                        let c = callers.get_mut(&cn).unwrap();
+                        c.join = Some(j);
+                        c.started = Some(Instant::now());
+                    }
+                }
+                "step" | "unpark" => {
+                    let t = if cn.is_empty() { wtask.get(&w).copied() } else { ctask.get(&cn).copied() };
+                    match t {
+                        Some(t) => gate_permit(t),
+                        None => {
+                            conf = false;
+                            mis = json!({"step": i, "spec": "task is parked at a yield point", "real": "task unknown"});
+                            break;
+                        }
+                    }
+                }
+                "cancel" => {
+                    let c = callers.get_mut(&cn).unwrap();
+                    if let Some(j) = &c.join {
+                        hev("caller_cancel", &cn, 0, 0, "");
+                        j.abort();
+                    }
+                    if let Some(t) = ctask.get(&cn) {
+                        gate_permit(*t);
+                    }
+                }
+                "ret" => {
+                    let o = match ev["o"].as_str().unwrap_or("") {
+                        "ok" => Outcome::Ok,
+                        "empty" => Outcome::Empty,
+                        _ => Outcome::Err,
+                    };
+                    if let Some(tx) = fst.pending.lock().unwrap().remove(&w) {
+                        let _ = tx.send(o);
+                    }
+                }
+                "stop" => {
+                    if let Some(m) = &mgr {
+                        m.stop_managing_paths(src_ia(), dst_ia(w));
+                    }
+                }
+                "drop" => {
+                    hev("drop_begin", "", 0, 0, "");
+                    mgr = None;
+                    hev("drop", "", 0, 0, "");
+                }
+                _ => {}
+            }
+        }
+        if conf {
+            let exp = expected(h.len());
+            let real = await_obs!(exp.clone());
+            obs.push(real.clone());
+            if !exp.contains(&real) {
+                conf = false;
+                mis = json!({"step": h.len(), "spec": fin, "real": real});
+            }
+        }
+        // ---- whatever happened: let everything run freely and evaluate the property
+        gate_free_run();
+        if let Some(m) = mgr.take() {
+            hev("drop_begin", "", 0, 0, "");
+            drop(m);
+            hev("drop", "", 0, 0, "");
+        }
+        let t_end = Instant::now();
+        while t_end.elapsed() < Duration::from_secs(5) {
+            let pend: Vec<oneshot::Sender<Outcome>> = fst.pending.lock().unwrap().drain().map(|(_, tx)| tx).collect();
+            for tx in pend {
+                let _ = tx.send(Outcome::Err);
+            }
+            for c in callers.values_mut() {
+                reap(c).await;
+            }
+            let log = log_snapshot();
+            let spawned = log.iter().filter(|e| e.kind == "map_insert").count();
+            let exited = log.iter().filter(|e| e.kind == "worker_exit").count();
+            if callers.values().all(|c| c.started.is_none() || c.res.is_some()) && spawned == exited {
+                break;
+            }
+            tokio::time::sleep(Duration::from_millis(2)).await;
+        }
+        let log = log_snapshot();
+        for c in callers.values() {
+            if c.started.is_some() && c.res.is_none() {
+                pv.push(json!({"key": "NoLostWakeup:caller-never-released", "what": format!("caller {} still pending 5 s after every lookup was answered and the manager dropped", c.name)}));
+            }
+            if let Some(CallRes::Panic(m)) = &c.res {
+                pv.push(json!({"key": "Panic:caller", "what": format!("caller {} panicked: {}", c.name, m)}));
+            }
+        }
+        let spawned: Vec<u64> = log.iter().filter(|e| e.kind == "map_insert").map(|e| e.w).collect();
+        for w in &spawned {
+            if !log.iter().any(|e| e.kind == "worker_exit" && e.w == *w) {
+                pv.push(json!({"key": "DropStopsAll:worker-alive-after-drop", "what": format!("worker {} did not terminate within 5 s after the manager was dropped", w)}));
+            }
+        }
+        for hd in verif_sync::handles() {
+            if !log.iter().any(|e| e.kind == "worker_exit" && e.w == hd.id()) {
+                continue;
+            }
+            match tokio::time::timeout(Duration::from_secs(5), hd.active_path()).await {
+                Err(_) => pv.push(json!({"key": "HandleAfterDrop:handle-hangs", "what": format!("handle of worker {} does not answer after drop", hd.id())})),
+                Ok(Some(_)) => pv.push(json!({"key": "HandleAfterDrop:handle-yields-path", "what": format!("handle of worker {} yields a path after the manager was dropped and the worker ended", hd.id())})),
+                Ok(None) => {}
+            }
+            if hd.current_error().is_none() {
+                pv.push(json!({"key": "HandleAfterDrop:no-error", "what": format!("handle of worker {} reports no error after the manager was dropped and the worker ended", hd.id())}));
+            }
+        }
+        if let Err(m) = single_worker_ok(&log) {
+            pv.push(json!({"key": "SingleWorker:second-worker-without-removal", "what": m}));
+        }
+        let wt = worker_tasks(&log);
+        let trace: Vec<Value> = log.iter().map(|e| ev_json(e, &names, &wt)).collect();
+        ReplayOut { obs, conf, mis, pv, timing: false, unsched: false, trace, fetches: fst.calls.load(Ordering::SeqCst) }
+    });
+    verif_sync::set_yield(None);
+    gate_free_run();
+    out
+}
+
+fn cmd_fine(inp: &str, outp: &str) {
+    install_sink();
+    let rows = vh_core::read_ndjson(inp);
+    let mut out = NdjsonWriter::create(outp);
+    let mut tr = NdjsonWriter::create(&format!("{outp}.trace.ndjson"));
+    tr.write(&json!({"ev": "meta", "spec": "PathSync", "mode": "fine"}));
+    let mut violating = 0;
+    for row in rows.iter() {
+        if row.get("h").is_none() {
+            continue;
+        }
+        if violating >= 12 {
+            out.write(&json!({"id": row["id"], "skipped": true}));
+            continue;
+        }
+        let alts: Vec<Value> = row["alts"].as_array().cloned().unwrap_or_default();
+        let r = match vh_core::catch(|| fine_one(row, &alts)) {
+            Ok(r) => r,
+            Err(p) => ReplayOut { obs: vec![], conf: false, mis: json!({"panic": p.clone()}), pv: vec![json!({"key": "Panic:harness-thread", "what": p})], timing: false, unsched: false, trace: vec![], fetches: 0 },
+        };
+        if !r.pv.is_empty() {
+            violating += 1;
+        }
+        out.write(&json!({"id": row["id"], "obs": r.obs, "conf": r.conf, "mis": r.mis, "pv": r.pv, "fetches": r.fetches, "events": r.trace.len()}));
+        let spec_nw = row["final"]["w"].as_array().map(|a| a.len()).unwrap_or(2);
+        let real_nw = r.trace.iter().filter(|e| e["ev"] == "map_insert").count();
+        tr.write(&json!({"ev": "reset", "nw": spec_nw.max(real_nw), "callers": row["callers"], "id": row["id"]}));
+        for e in r.trace {
+            tr.write(&e);
+        }
+    }
+    out.finish();
+    tr.finish();
+}
+
+
+// --------------------------------------------------------------------------------------- storm
+// High-rate real-schedule driver: for many FRESH pairs, several threads keep issuing path()
+// callers while the pending lookup of that pair completes at a random moment (heavy contention on
+// PathSetSharedState::sync exactly when the worker clears the flags and notifies).  Direct
+// liveness monitor: every caller resolves within 10 s of the lookup's completion, measured while
+// the process itself makes progress (heartbeat).  A sample of the pairs runs with the hook's event
+// sink installed (few callers) and is validated by Trace_PathSync.
+
+struct StormFetcher {
+    issued: Arc<AtomicU64>,
+    target: u64,
+    extra_yields: u64,
+    spin_ns: u64,
+    outcome: Outcome,
+    done: Arc<AtomicBool>,
+    completed: Arc<Mutex<Option<(Instant, u64)>>>,
+    heart: Arc<AtomicU64>,
+    traced: bool,
+}
+
+impl PathFetcher for StormFetcher {
+    fn fetch_paths(
+        &self,
+        _src: IsdAsn,
+        dst: IsdAsn,
+    ) -> impl Future<Output = Result<Vec<ScionPath>, PathFetchError>> + Send + '_ {
+        async move {
+            let w = if self.traced { worker_of_current_task() } else { 0 };
+            if self.traced {
+                hev("fetch_call", "", w, key_of(dst), "");
+            }
+            // answer only once callers are in flight, at a random moment
+            let t0 = Instant::now();
+            while self.issued.load(Ordering::Relaxed) < self.target && t0.elapsed() < Duration::from_millis(20) {
+                tokio::task::yield_now().await;
+            }
+            for _ in 0..self.extra_yields {
+                tokio::task::yield_now().await;
+            }
+            let t1 = Instant::now();
+            while (t1.elapsed().as_nanos() as u64) < self.spin_ns {
+                std::hint::spin_loop();
+            }
+            if self.traced {
+                hev("fetch_ret", "", w, key_of(dst), self.outcome.name());
+            }
+            *self.completed.lock().unwrap() = Some((Instant::now(), self.heart.load(Ordering::SeqCst)));
+            self.done.store(true, Ordering::SeqCst);
+            match self.outcome {
+                Outcome::Ok | Outcome::OkNear => Ok(vec![mk_path(dst, now_secs() + 20 * 3600)]),
+                Outcome::Empty => Ok(vec![]),
+                Outcome::Err => Err(PathFetchError::InternalError("scripted failure".into())),
+            }
+        }
+    }
+}
+
+const HEART_MS: u64 = 5;
+
+fn cmd_storm(evp: &str, resp: &str) {
+    let seed0 = vh_core::seed_from_env();
+    let pairs: u64 = std::env::var("VERIF_STORM_PAIRS").ok().and_then(|s| s.parse().ok()).unwrap_or(20000);
+    let sample_every: u64 = std::env::var("VERIF_STORM_SAMPLE_EVERY").ok().and_then(|s| s.parse().ok()).unwrap_or(200);
+    let budget_s: u64 = std::env::var("VERIF_STORM_BUDGET_S").ok().and_then(|s| s.parse().ok()).unwrap_or(3600);
+    let mut tr = NdjsonWriter::create(evp);
+    tr.write(&json!({"ev": "meta", "spec": "PathSync", "mode": "storm", "seed": seed0}));
+    let rt = tokio::runtime::Builder::new_multi_thread().worker_threads(6).enable_all().build().expect("runtime");
+    let heart = Arc::new(AtomicU64::new(0));
+    let res = rt.block_on(async {
+        {
+            let h = heart.clone();
+            tokio::spawn(async move {
+                loop {
+                    tokio::time::sleep(Duration::from_millis(HEART_MS)).await;
+                    h.fetch_add(1, Ordering::SeqCst);
+                }
+            });
+        }
+        let t_start = Instant::now();
+        let mut rng = Rng::new(seed0 ^ 0x5707_4D5E);
+        let mut pv: Vec<Value> = vec![];
+        let mut callers_total = 0u64;
+        let mut parked_total = 0u64;
+        let mut pairs_done = 0u64;
+        let mut sampled = 0u64;
+        let mut traces: Vec<(Value, Vec<Value>)> = vec![];
+        let mut res_path = 0u64;
+        let mut res_err = 0u64;
+        for pair in 0..pairs {
+            if pv.len() >= 3 || t_start.elapsed() > Duration::from_secs(budget_s) {
+                break;
+            }
+            let traced = pair % sample_every == 0;
+            if traced {
+                reset_all();
+                install_sink();
+                sampled += 1;
+            }
+            let done = Arc::new(AtomicBool::new(false));
+            let issued = Arc::new(AtomicU64::new(0));
+            let completed = Arc::new(Mutex::new(None));
+            let outcome = match rng.below(6) {
+                0 => Outcome::Empty,
+                1 => Outcome::Err,
+                _ => Outcome::Ok,
+            };
+            let max_callers: u64 = if traced { rng.range(2, 8) } else { 4000 };
+            let fetcher = StormFetcher {
+                issued: issued.clone(),
+                target: if traced { rng.range(1, max_callers) } else { rng.range(1, 48) },
+                extra_yields: rng.below(4),
+                spin_ns: if rng.chance(1, 2) { rng.below(3000) } else { 0 },
+                outcome,
+                done: done.clone(),
+                completed: completed.clone(),
+                heart: heart.clone(),
+                traced,
+            };
+            let cfg = verif_sync::config(
+                Duration::from_secs(3600),
+                Duration::from_millis(100),
+                Duration::from_secs(10),
+                Duration::from_secs(3600),
+                3600.0,
+                3600.0,
+                1.0,
+            );
+            let mgr = MultiPathManager::new(cfg, fetcher, PathStrategy::default()).expect("config");
+            let dst = if traced { dst_ia(1) } else { dst_ia(pair % 60000 + 1) };
+            let names: Arc<Mutex<HashMap<tokio::task::Id, String>>> = Arc::new(Mutex::new(HashMap::new()));
+            // issuers on the runtime's threads
+            let mut issuers = vec![];
+            for t in 0..5u64 {
+                let m = mgr.clone();
+                let done = done.clone();
+                let issued = issued.clone();
+                let names = names.clone();
+                let mut r = Rng::new(seed0 ^ pair.wrapping_mul(0x9E37_79B9) ^ (t << 56));
+                issuers.push(tokio::spawn(async move {
+                    let mut hs: Vec<(String, tokio::task::JoinHandle<bool>)> = vec![];
+                    loop {
+                        let n = issued.fetch_add(1, Ordering::SeqCst);
+                        if n >= max_callers {
+                            break;
+                        }
+                        let after = done.load(Ordering::SeqCst);
+                        if traced {
+                            let name = format!("w1_{}", n + 1);
+                            hev("caller_start", &name, 0, 1, "wait");
+                            let mm = m.clone();
+                            let nm = name.clone();
+                            let j = tokio::spawn(async move {
+                                let ok = mm.path_wait(src_ia(), dst_ia(1), SystemTime::now()).await.is_ok();
+                                drop(mm);
+                                hev("caller_done", &nm, 0, 1, if ok { "path" } else { "error" });
+                                ok
+                            });
+                            names.lock().unwrap().insert(j.id(), name.clone());
+                            hs.push((name, j));
+                        } else {
+                            let mm = m.clone();
+                            hs.push((String::new(), tokio::spawn(async move { mm.path(src_ia(), dst, SystemTime::now()).await.is_ok() })));
+                        }
+                        if after {
+                            break; // one caller after the completion, then stop
+                        }
+                        if r.chance(1, 6) {
+                            tokio::task::yield_now().await;
+                        }
+                    }
+                    hs
+                }));
+            }
+            let mut handles = vec![];
+            for i in issuers {
+                if let Ok(hs) = i.await {
+                    handles.extend(hs);
+                }
+            }
+            callers_total += handles.len() as u64;
+            // every caller must resolve within 10 s of the completion (progress time)
+            let mut pending = 0u64;
+            for (name, mut j) in handles {
+                loop {
+                    match tokio::time::timeout(Duration::from_millis(50), &mut j).await {
+                        Ok(Ok(ok)) => {
+                            if ok { res_path += 1 } else { res_err += 1 }
+                            break;
+                        }
+                        Ok(Err(e)) => {
+                            if e.is_panic() {
+                                pv.push(json!({"key": "Panic:caller", "what": format!("storm pair {pair}: caller panicked: {e}"), "pair": pair}));
+                            }
+                            break;
+                        }
+                        Err(_) => {
+                            let c = *completed.lock().unwrap();
+                            // no completion yet: the lookup itself is still running (bounded by its own 20 ms wait)
+                            if let Some((at, hb)) = c {
+                                let ticks = heart.load(Ordering::SeqCst).saturating_sub(hb);
+                                if at.elapsed() > Duration::from_secs(10) && ticks * HEART_MS >= 10_000 {
+                                    pending += 1;
+                                    let _ = name;
+                                    j.abort();
+                                    break;
+                                }
+                            }
+                        }
+                    }
+                }
+            }
+            if pending > 0 {
+                parked_total += pending;
+                pv.push(json!({"key": "NoLostWakeup:caller-never-released", "pair": pair, "seed": seed0,
+                    "what": format!("storm pair {pair}: {pending} caller(s) of path() still pending 10 s (of process progress) after the lookup of their pair completed ({})", outcome.name())}));
+            }
+            if traced {
+                hev("drop_begin", "", 0, 0, "");
+            }
+            drop(mgr);
+            if traced {
+                hev("drop", "", 0, 0, "");
+                // wait for the worker's exit events
+                let t0 = Instant::now();
+                loop {
+                    let log = log_snapshot();
+                    let sp = log.iter().filter(|e| e.kind == "map_insert").count();
+                    let ex = log.iter().filter(|e| e.kind == "worker_exit").count();
+                    if sp == ex || t0.elapsed() > Duration::from_secs(5) {
+                        if sp != ex && pending == 0 {
+                            let evs: Vec<String> = log.iter().map(|e| format!("{} {} w{} {}", e.seq, e.kind, e.w, e.note)).collect();
+                            pv.push(json!({"key": "DropStopsAll:worker-alive-after-drop", "pair": pair, "events": evs, "what": format!("storm pair {pair}: worker did not terminate within 5 s after the manager was dropped")}));
+                        }
+                        break;
+                    }
+                    tokio::time::sleep(Duration::from_millis(1)).await;
+                }
+                let log = log_snapshot();
+                let wt = worker_tasks(&log);
+                let nm = names.lock().unwrap().clone();
+                let mut cm = serde_json::Map::new();
+                for n in nm.values() {
+                    cm.insert(n.clone(), json!({"kind": "wait", "k": 1}));
+                }
+                let nw = log.iter().filter(|e| e.kind == "map_insert").count().max(1);
+                let evs: Vec<Value> = log.iter().map(|e| ev_json(e, &nm, &wt)).collect();
+                if pending == 0 {
+                    traces.push((json!({"ev": "reset", "nw": nw, "nk": 1, "callers": Value::Object(cm), "pair": pair}), evs));
+                }
+                verif_sync::set_sink(None);
+            }
+            pairs_done += 1;
+        }
+        json!({"pairs": pairs_done, "planned_pairs": pairs, "callers": callers_total, "never_released": parked_total, "sampled": sampled,
+               "res_path": res_path, "res_error": res_err, "wall_s": t_start.elapsed().as_secs_f64(), "pv": pv, "traces": traces.len(),
+               "_traces": traces.into_iter().map(|(m, e)| json!({"m": m, "e": e})).collect::<Vec<_>>()})
+    });
+    let mut res = res;
+    if let Some(ts) = res.get("_traces").and_then(|t| t.as_array()).cloned() {
+        for t in ts {
+            tr.write(&t["m"]);
+            for e in t["e"].as_array().unwrap() {
+                tr.write(e);
+            }
+        }
+    }
+    res.as_object_mut().unwrap().remove("_traces");
+    tr.finish();
+    std::fs::write(resp, serde_json::to_string(&res).unwrap()).expect("write results");
+    // the runtime is shut down without waiting for leftover tasks (parked callers of a violating run)
+    rt.shutdown_background();
+}
+
 fn cmd_replay(inp: &str, outp: &str) {
     install_sink();
     let rows = vh_core::read_ndjson(inp);
@@ -936,7 +1637,7 @@ fn record_one(seed: u64) -> RecOut {
                 return;
             }
             // the windows right after a critical section of a waiter are stretched more often
-            let hot = name == "await.registered" || name == "handle.after_load" || name == "fetch.before_finish";
+            let hot = name == "await.registered" || name == "handle.after_load" || name == "fetch.before_finish" || name == "lock.await";
             match r.below(if hot { 5 } else { 8 }) {
                 0 => std::thread::sleep(Duration::from_micros(r.range(20, 400))),
                 1 => std::thread::yield_now(),
@@ -1183,8 +1884,10 @@ fn main() {
     match args.get(1).map(|s| s.as_str()) {
         Some("replay") if args.len() >= 4 => cmd_replay(&args[2], &args[3]),
         Some("record") if args.len() >= 4 => cmd_record(&args[2], &args[3]),
+        Some("fine") if args.len() >= 4 => cmd_fine(&args[2], &args[3]),
+        Some("storm") if args.len() >= 4 => cmd_storm(&args[2], &args[3]),
         _ => {
-            eprintln!("usage: pathsync replay <in.ndjson> <out.ndjson> | record <events.ndjson> <results.json>");
+            eprintln!("usage: pathsync replay|fine <in.ndjson> <out.ndjson> | record|storm <events.ndjson> <results.json>");
             std::process::exit(2);
         }
     }
